@@ -372,12 +372,19 @@ impl<'a> Gen<'a> {
                 self.i_mov_const(b, r1, a)
             }
             5 | 6 => {
-                let off = *self.r.pick(&[0i64, 4, 8, -8, 16, -16, 0x20, -0x28, 0x100]);
+                let mut off = *self.r.pick(&[0i64, 4, 8, -8, 16, -16, 0x20, -0x28, 0x100]);
+                if self.exotic && self.r.chance(3) {
+                    // absurd displacements (data decoded as code, obfuscation)
+                    off = *self.r.pick(&[i64::MAX, i64::MAX - 7, i64::MIN, i64::MIN + 8, 0x7fff_fff8]);
+                }
                 let sz = *self.r.pick(&[p.ptr, p.ptr, p.ptr, 1, 2, 4]);
                 self.i_load(b, r1, r2, off, sz.min(p.ptr))
             }
             7 | 8 => {
-                let off = *self.r.pick(&[0i64, 4, 8, -8, 16, -16, 0x20, -0x28]);
+                let mut off = *self.r.pick(&[0i64, 4, 8, -8, 16, -16, 0x20, -0x28]);
+                if self.exotic && self.r.chance(3) {
+                    off = *self.r.pick(&[i64::MAX, i64::MAX - 7, i64::MIN, i64::MIN + 8, 0x7fff_fff8]);
+                }
                 let v = if self.r.chance(70) { reg(r1, p.ptr) } else { cst(self.r.below(256), *self.r.pick(&[1u64, 2, 4])) };
                 self.i_store(b, r2, off, v)
             }
@@ -691,6 +698,9 @@ impl<'a> Gen<'a> {
         } else {
             self.setup_args(&mut b, args);
         }
+        // exotic: the disassembler sees no fall-through for this call instruction (last instruction
+        // before data, no-return override at the call site): the call carries no return label
+        let no_return = no_return || (self.exotic && self.r.chance(4));
         let r = self.end_with_call(b, CallTarget::Extern(addr, no_return), next_addr, out);
         // cdecl: the caller removes the arguments
         match r {
@@ -733,6 +743,7 @@ pub const GADGETS: &[&str] = &[
     "string_building", "string_building", "callee_frees", "callee_frees", "realloc_use", "call_helper_ptr", "call_helper_ptr",
     "dangling_return", "dangling_return", "malloc_deref_paths", "malloc_deref_paths",
     "alu_chain", "alu_chain", "sscanf_two_outputs", "call_alloc_driver", "call_alloc_driver",
+    "buffer_loop", "buffer_loop", "sprintf_formats", "sprintf_formats", "system_cmd_paths", "global_addr_narrow",
 ];
 
 impl<'a> Gen<'a> {
@@ -1091,6 +1102,172 @@ impl<'a> Gen<'a> {
                     self.note_addr(skip_blk);
                 }
             }
+            "buffer_loop" => {
+                // a loop walking over a buffer (parameter, heap or stack) with the usual guards of
+                // compiled code: unsigned bound, signed bound, "until the counter wraps" overflow
+                // guards (`i >= 0`, `i > 0`), count-down loops
+                let idx = p.callee_saved.iter().copied().find(|r| *r != sv && *r != p.sp && *r != p.fp).unwrap_or(p.killed[0]);
+                let base: &'static str = match self.r.below(3) {
+                    0 if !p.stack_args => p.params[0],
+                    1 => {
+                        let size = *self.r.pick(&[0x10u64, 0x40, 0x100]);
+                        b = call!(b, alloc, &[ArgV::Const(size), ArgV::Const(0xcc0)]);
+                        self.i_mov_reg(&mut b, sv, ret);
+                        sv
+                    }
+                    _ => {
+                        b.next_insn();
+                        b.def(Some(reg(sv, p.ptr)), expr("INT_ADD", &[reg(p.sp, p.ptr), cst((-0x60i64) as u64, p.ptr)]));
+                        sv
+                    }
+                };
+                let head = slots();
+                let body = slots();
+                let exit = slots();
+                let kind = self.r.below(6);
+                let start = match kind { 4 => *self.r.pick(&[0x10u64, 0x3f, 0x100]), _ => self.r.below(2) };
+                self.i_mov_const(&mut b, idx, start);
+                b.next_insn();
+                let jt = b.jmp_tid();
+                b.jmps.push(json!({"tid": jt, "term": {"mnemonic": "BRANCH", "goto": {"Direct": tid(format!("blk_{}", hex(head)), &hex(head))}}}));
+                out.push(b);
+                // head: leave the loop when the guard fails
+                self.note_addr(head);
+                let mut hb = Blk::new(head, None);
+                hb.next_insn();
+                let fi = self.r.below(p.flags.len().max(1) as u64) as usize;
+                let cond = if p.flags.is_empty() { self.u(1) } else { reg(p.flags[fi], 1) };
+                let bound = *self.r.pick(&[0x10u64, 0x40, 0x41, 0x1000]);
+                let e = match kind {
+                    0 => expr("INT_SLESS", &[reg(idx, p.ptr), cst(0, p.ptr)]),            // while (i >= 0)
+                    1 => expr("INT_SLESSEQUAL", &[reg(idx, p.ptr), cst(0, p.ptr)]),       // while (i > 0), counting up
+                    2 => expr("INT_LESSEQUAL", &[cst(bound, p.ptr), reg(idx, p.ptr)]),    // while (i < bound) unsigned
+                    3 => expr("INT_SLESSEQUAL", &[cst(bound, p.ptr), reg(idx, p.ptr)]),   // while (i < bound) signed
+                    4 => expr("INT_SLESS", &[reg(idx, p.ptr), cst(0, p.ptr)]),            // count-down, while (i >= 0)
+                    _ => expr("INT_EQUAL", &[reg(idx, p.ptr), cst(bound, p.ptr)]),        // while (i != bound)
+                };
+                hb.def(Some(cond.clone()), e);
+                let j0 = hb.jmp_tid();
+                let j1 = hb.jmp_tid();
+                hb.jmps.push(json!({"tid": j0, "term": {"mnemonic": "CBRANCH", "goto": {"Direct": tid(format!("blk_{}", hex(exit)), &hex(exit))}, "condition": cond}}));
+                hb.jmps.push(json!({"tid": j1, "term": {"mnemonic": "BRANCH", "goto": {"Direct": tid(format!("blk_{}", hex(body)), &hex(body))}}}));
+                out.push(hb);
+                // body: p[i] = 0 (or a read); i += step
+                self.note_addr(body);
+                let mut bb = Blk::new(body, None);
+                bb.next_insn();
+                let a = self.u(p.ptr);
+                bb.def(Some(a.clone()), expr("INT_ADD", &[reg(base, p.ptr), reg(idx, p.ptr)]));
+                let width = *self.r.pick(&[1u64, 1, 4, p.ptr]);
+                if self.r.chance(75) {
+                    bb.def(None, expr("STORE", &[cst(SPACE_ID, 4), a, cst(0, width)]));
+                } else {
+                    let t = self.u(width);
+                    bb.def(Some(t), expr("LOAD", &[cst(SPACE_ID, 4), a]));
+                }
+                let step = if kind == 4 { (-(*self.r.pick(&[1i64, 4]))) as u64 } else { *self.r.pick(&[1u64, 1, 3, 4, 8]) };
+                bb.next_insn();
+                bb.def(Some(reg(idx, p.ptr)), expr("INT_ADD", &[reg(idx, p.ptr), cst(step, p.ptr)]));
+                bb.next_insn();
+                let jt = bb.jmp_tid();
+                bb.jmps.push(json!({"tid": jt, "term": {"mnemonic": "BRANCH", "goto": {"Direct": tid(format!("blk_{}", hex(head)), &hex(head))}}}));
+                out.push(bb);
+                self.note_addr(exit);
+                b = Blk::new(exit, None);
+            }
+            "sprintf_formats" if !self.lkm => {
+                // sprintf/snprintf into a stack or heap buffer with one of the format strings in
+                // .rodata (percent signs, length modifiers, width/precision, flags), the result is
+                // used as a command now and then
+                let k = self.r.below(FORMATS.len() as u64);
+                let fmt = self.rodata + 0x100 + 0x20 * k;
+                let heap = self.r.chance(30);
+                if heap {
+                    b = call!(b, "malloc", &[ArgV::Const(0x80)]);
+                    self.i_mov_reg(&mut b, sv, ret);
+                }
+                let dst = if heap { ArgV::Reg(sv) } else { ArgV::StackBuf(-0x70) };
+                let arg = |r: &mut Rng| match r.below(4) { 0 => ArgV::Const(r.below(100)), 1 => ArgV::Keep, 2 => ArgV::StackBuf(-0x20), _ => ArgV::Const(0) };
+                let a1 = arg(&mut self.r);
+                let a2 = arg(&mut self.r);
+                if self.r.chance(70) {
+                    b = call!(b, "sprintf", &[dst.clone(), ArgV::Const(fmt), a1, a2]);
+                } else {
+                    b = call!(b, "snprintf", &[dst.clone(), ArgV::Const(0x40), ArgV::Const(fmt), a1, a2]);
+                }
+                if self.r.chance(40) {
+                    b = call!(b, "system", &[dst]);
+                }
+            }
+            "system_cmd_paths" if !self.lkm => {
+                // cmd = "ls"; if (..) cmd = "pwd"; else if (..) { scanf("%s", buf); cmd = buf; } system(cmd);
+                // the command lives in a callee-saved register or directly in the parameter register
+                let n = self.r.range(2, 4);
+                let join = slots();
+                let direct = !p.stack_args && self.r.chance(50);
+                let cmd: &'static str = if direct { p.params[0] } else { sv };
+                self.i_mov_const(&mut b, cmd, self.rodata + 0x20);
+                for k in 0..n {
+                    let here = slots();
+                    let nextc = slots();
+                    b.next_insn();
+                    let cond = self.u(1);
+                    b.def(Some(cond.clone()), expr("INT_EQUAL", &[reg(p.killed[1 % p.killed.len()], p.ptr), cst(k, p.ptr)]));
+                    let j0 = b.jmp_tid();
+                    let j1 = b.jmp_tid();
+                    b.jmps.push(json!({"tid": j0, "term": {"mnemonic": "CBRANCH", "goto": {"Direct": tid(format!("blk_{}", hex(here)), &hex(here))}, "condition": cond}}));
+                    b.jmps.push(json!({"tid": j1, "term": {"mnemonic": "BRANCH", "goto": {"Direct": tid(format!("blk_{}", hex(nextc)), &hex(nextc))}}}));
+                    out.push(b);
+                    self.note_addr(here);
+                    let mut hb = Blk::new(here, None);
+                    match self.r.below(3) {
+                        0 => { let o = *self.r.pick(&[0u64, 0x40, 0x70]); self.i_mov_const(&mut hb, cmd, self.rodata + o) }
+                        1 => {
+                            hb.next_insn();
+                            hb.def(Some(reg(cmd, p.ptr)), expr("INT_ADD", &[reg(p.sp, p.ptr), cst((-0x50i64) as u64, p.ptr)]));
+                        }
+                        _ => {
+                            let after = slots();
+                            let name = if self.ext("scanf").is_some() && self.r.chance(50) { "scanf" } else { "__isoc99_scanf" };
+                            hb = match self.call_extern_seq(hb, name, &[ArgV::Const(self.rodata + 0x60), ArgV::StackBuf(-0x50)], after, out) { Some(x) => x, None => return None };
+                            hb.next_insn();
+                            hb.def(Some(reg(cmd, p.ptr)), expr("INT_ADD", &[reg(p.sp, p.ptr), cst((-0x50i64) as u64, p.ptr)]));
+                        }
+                    }
+                    hb.next_insn();
+                    let jt = hb.jmp_tid();
+                    hb.jmps.push(json!({"tid": jt, "term": {"mnemonic": "BRANCH", "goto": {"Direct": tid(format!("blk_{}", hex(join)), &hex(join))}}}));
+                    out.push(hb);
+                    self.note_addr(nextc);
+                    b = Blk::new(nextc, None);
+                }
+                b.next_insn();
+                let jt = b.jmp_tid();
+                b.jmps.push(json!({"tid": jt, "term": {"mnemonic": "BRANCH", "goto": {"Direct": tid(format!("blk_{}", hex(join)), &hex(join))}}}));
+                out.push(b);
+                self.note_addr(join);
+                b = Blk::new(join, None);
+                b = call!(b, "system", &[if direct { ArgV::Keep } else { ArgV::Reg(sv) }]);
+            }
+            "global_addr_narrow" => {
+                // a global is read pointer-sized and the address of a global is written somewhere as a
+                // value narrower (or wider) than a pointer: `mov dword ptr [g], offset g` in non-PIE
+                // x86-64 code, 32-bit handles, address constants in packed structures
+                let g = self.data + 8 * self.r.below(8);
+                let t = self.u(p.ptr);
+                b.next_insn();
+                b.def(Some(t), expr("LOAD", &[cst(SPACE_ID, 4), cst(g, p.ptr)]));
+                let width = *self.r.pick(&[4u64, 4, 2, 8]);
+                let v = cst(g, width);
+                match self.r.below(3) {
+                    0 => { b.next_insn(); b.def(None, expr("STORE", &[cst(SPACE_ID, 4), cst(g, p.ptr), v])); }
+                    1 if !p.stack_args => self.i_store(&mut b, p.params[0], 8, v),
+                    _ => {
+                        b = call!(b, alloc, &[ArgV::Const(0x20), ArgV::Const(0xcc0)]);
+                        self.i_store(&mut b, ret, 0, v);
+                    }
+                }
+            }
             "stack_overflow_store" => {
                 // write beyond the own frame into the caller's frame region
                 let v = cst(0, p.ptr);
@@ -1436,7 +1613,7 @@ fn calling_conventions(p: &Profile, r: &mut Rng) -> Value {
 }
 
 fn rodata_bytes() -> Vec<u8> {
-    let mut ro = vec![0u8; 0x100];
+    let mut ro = vec![0u8; 0x100 + 0x20 * FORMATS.len()];
     let mut put = |off: usize, s: &[u8]| ro[off..off + s.len()].copy_from_slice(s);
     put(0x00, b"/bin/sh\0");
     put(0x10, b"%s %d\0");
@@ -1446,8 +1623,17 @@ fn rodata_bytes() -> Vec<u8> {
     put(0x50, b"hello %s, %x\n\0");
     put(0x60, b"%s %s\0");
     put(0x70, b"str1 str2\0");
+    for (k, f) in FORMATS.iter().enumerate() {
+        put(0x100 + 0x20 * k, f.as_bytes());
+    }
     ro
 }
+
+/// Format strings for the `sprintf_formats` gadget (at `.rodata + 0x100 + 0x20 * k`, NUL padded).
+pub const FORMATS: &[&str] = &[
+    "%d%%, %d%%", "%5.1f%% done", "cpu %lu%%, mem %lu%%", "%-8s|%c|%08x", "%hhu.%hhu", "%%, %d", "[%s]", "%lld/%llu",
+    "%s,%s", "%+d %#x", "100%", "%*d", "%zu bytes", "id=%i;",
+];
 
 pub fn generate(seed: u64) -> Workload {
     let mut r = Rng::new(seed);
